@@ -340,9 +340,20 @@ func (k Keeper) GetAVSInfo(ctx sdk.Context, addr string) (*types.QueryAVSInfoRes
 	return res, nil
 }
 
+// IsAVS returns true if addr is the address of a registered AVS, spelled exactly as it was
+// registered. The AVS is looked up by the address bytes, but the other modules (e.g. the opt-in
+// records and the USD values of x/operator) are keyed by the address string, so another letter
+// case of the same address must not be accepted as the AVS: it would create a second,
+// disconnected set of records for it.
 func (k *Keeper) IsAVS(ctx sdk.Context, addr string) (bool, error) {
 	store := prefix.NewStore(ctx.KVStore(k.storeKey), types.KeyPrefixAVSInfo)
-	return store.Has(common.HexToAddress(addr).Bytes()), nil
+	value := store.Get(common.HexToAddress(addr).Bytes())
+	if value == nil {
+		return false, nil
+	}
+	avs := types.AVSInfo{}
+	k.cdc.MustUnmarshal(value, &avs)
+	return avs.AvsAddress == addr, nil
 }
 
 // IsAVSByChainID queries whether an AVS exists by chainID.
